@@ -14,6 +14,7 @@ import (
 	"github.com/llir/llvm/ir"
 	"github.com/llir/llvm/ir/constant"
 	"github.com/llir/llvm/ir/enum"
+	"github.com/llir/llvm/ir/metadata"
 	"github.com/llir/llvm/ir/types"
 )
 
@@ -135,6 +136,59 @@ func c14Consts(c *config, r *rng) {
 			o.Fail("observers_noop", "", "a constant prints differently after it has been observed", map[string]interface{}{"constant": rc.label, "fresh": plain, "observed": observed, "ident_first": id1, "ident_later": id2})
 		case first != second:
 			o.Fail("print_twice", "", "the first and the second print of a module differ", map[string]interface{}{"constant": rc.label, "first": first, "second": second})
+		default:
+			o.Pass("observers_noop")
+		}
+	}
+}
+
+// C14, metadata definitions: a print between two growth steps of the definition list changes nothing about the
+// final text (the IDs a print assigns are the ones the final print would have assigned)
+func c14Metadata(c *config, r *rng) {
+	o := c.out
+	for i := 0; i < 150*c.scale; i++ {
+		steps := 2 + r.intn(3)
+		sizes := make([]int, steps)
+		for k := range sizes {
+			sizes[k] = 1 + r.intn(3)
+		}
+		explicit := r.intn(4) == 0
+		build := func(observe bool) (string, outcome, string) {
+			var text string
+			oc, msg := guard(func() error {
+				m := ir.NewModule()
+				n := 0
+				for _, sz := range sizes {
+					for k := 0; k < sz; k++ {
+						id := int64(-1)
+						if explicit && n == 1 {
+							id = 5 // one explicit ID among the unassigned ones
+						}
+						m.MetadataDefs = append(m.MetadataDefs, &metadata.Tuple{MetadataID: metadata.MetadataID(id), Fields: []metadata.Field{&metadata.String{Value: fmt.Sprintf("n%d", n)}}})
+						n++
+					}
+					if observe {
+						_ = m.String()
+					}
+				}
+				text = m.String()
+				if t2 := m.String(); t2 != text {
+					return fmt.Errorf("two prints in a row differ")
+				}
+				return nil
+			})
+			return text, oc, msg
+		}
+		with, oc1, msg1 := build(true)
+		without, oc2, _ := build(false)
+		o.Stat("md_growth_histories")
+		switch {
+		case oc2 != ocOk:
+			o.Stat("md_growth_unprintable")
+		case oc1 != ocOk:
+			o.Fail("observers_noop", "", "printing between two growth steps of the metadata definitions makes a later print fail", map[string]interface{}{"sizes": sizes, "msg": msg1})
+		case with != without:
+			o.Fail("observers_noop", "", "printing between two growth steps of the metadata definitions changes the final text", map[string]interface{}{"sizes": sizes, "with": with, "without": without})
 		default:
 			o.Pass("observers_noop")
 		}
